@@ -238,6 +238,31 @@ fn c01(tier: Tier) -> i32 {
             cases.push(c);
         }
     }
+    // every segment count around and beyond the tuple limit (26): the view generator chunks long
+    // blocs into nested tuples, the chunking depends on N mod ceil(N/26)
+    {
+        let max_n = tier.pick(58, 112);
+        let mut en = vec![];
+        let mut fr = vec![];
+        for n in 25..=max_n {
+            let mk = |loc: &str, n: usize| {
+                let mut segs = vec![];
+                for i in 0..n {
+                    segs.push(if i % 2 == 0 { text(&format!("[{loc}.w{n}.{i}]")) } else if i % 6 == 5 { comp("b", vec![var("y")]) } else { var("x") });
+                }
+                s(segs)
+            };
+            en.push((format!("w{n}"), mk("en", n)));
+            // the other locale gets another length so that both parities / remainders meet
+            fr.push((format!("w{n}"), mk("fr", n + 1)));
+        }
+        let mut p = Project::new(Config::simple("en", &["en", "fr"]));
+        p.set_file(None, "en", en);
+        p.set_file(None, "fr", fr);
+        let mut c = Case::new(&format!("c01_{}_wide", tier.name()), p);
+        c.add_all_keys(&[Flavour::TdString, Flavour::Td], &[Num::I(0)], 1);
+        cases.push(c);
+    }
     if tier == Tier::Thorough {
         // 17 locales: EitherOfWrapper nesting in the generated match
         let locs = ["en", "fr", "de", "it", "es", "pt", "nl", "sv", "da", "fi", "pl", "cs", "ru", "uk", "ja", "ko", "zh"];
@@ -300,6 +325,14 @@ pub fn kinds_entries(loc: &str, ns: &str) -> Vec<(String, Val)> {
     e.push(("fk_args".into(), s(vec![fk_args(&fkp("range"), vec![("count", FkArg::Str(vec![var("n")])), ("x", FkArg::Str(vec![text("X")]))])])));
     e.push(("fk_lit".into(), s(vec![fk_args(&fkp("plu"), vec![("count", FkArg::UInt(1))])])));
     e.push(("g".into(), Val::Sub(vec![("h".into(), Val::Sub(leafs("g.h."))), ("top".into(), st(&t("g.top")))])));
+    // long values: the view back-end nests more than 26 segments into sub-tuples, the string back-end does not
+    for n in [26usize, 27, 29, 53] {
+        let mut segs = vec![];
+        for i in 0..n {
+            segs.push(if i % 2 == 0 { text(&format!("[{loc}.{ns}.w{n}.{i}]")) } else { var("x") });
+        }
+        e.push((format!("w{n}"), s(segs)));
+    }
     e
 }
 
